@@ -83,5 +83,4 @@ crate::impl_view_dump!(
     "Player"
 );
 
-// the raw variables are not a response
-impl crate::views::ViewDump for HashMap<String, String> {}
+// (`ViewDump` for the raw variables map `HashMap<String, String>` is implemented in gs3.rs)
